@@ -51,6 +51,9 @@ func runC16(c *ctx) {
 	// corpus: minimised past failures first
 	c16case(c, 1, []int{41, 59}, []int{1, 1})
 	c16case(c, 128, []int{1, 3}, []int{3, 1})
+	// binary32 lands just below an integer: 250 where exact arithmetic gives 251 (within the share tolerance)
+	c16case(c, 75, []int{229, 241, 17}, []int{157, 162, 162})
+	c16case(c, 93, []int{249, 235, 5}, []int{269, 239, 269})
 	// exhaustive small scope: 2 groups
 	wstep, lmax := 1, 3
 	ws := []int{0, 1, 2, 3, 5, 7, 10, 25, 33, 41, 50, 59, 64, 99, 100, 127, 128, 200, 255, 256}
